@@ -12,7 +12,8 @@ Ties to /repo, re-run on every check:
   * the mapping under worker counts that induce the same chunks (the chunk
     list is read from the hook trace and compared with the model);
   * re_order_blob against the Lean model on generated blobs (incl. missing
-    and repeated cells);
+    and repeated cells); write_query_markers_to_h5 / clean_for_json on marker
+    tables listed in two different orders (sorted by reference index);
   * the translator's merge discipline for every stage (Generated/Skeleton).
 """
 import itertools
@@ -288,6 +289,109 @@ def check_reorder(ctx, rng, n_cases):
                               'checks', detail, found_input=False)
 
 
+def check_marker_cache_order(ctx, rng, n_cases):
+    """"marker lists sorted by reference gene index before use"
+    (write_query_markers_to_h5): the cache written for a marker table does
+    not depend on the order in which each parent's markers are listed (the
+    order a set would be enumerated in); sets go through clean_for_json
+    sorted"""
+    with pipeline.workdir('ctmverif_c04_') as d:
+        for case in range(n_cases):
+            n_ref = rng.randint(3, 12)
+            ref = ['g%d' % i for i in rng.sample(range(40), n_ref)]
+            query = list(ref)
+            rng.shuffle(query)
+            query = query + ['q%d' % i for i in range(rng.randint(0, 3))]
+            rng.shuffle(query)
+            parents = ['None'] + ['lvl/n%d' % i
+                                  for i in range(rng.randint(0, 3))]
+            lookup = {p: rng.sample(ref, rng.randint(0, n_ref))
+                      for p in parents}
+            shuffled = {}
+            for p in reversed(parents):
+                l = list(lookup[p])
+                rng.shuffle(l)
+                shuffled[p] = l
+            items = rng.sample(range(100), rng.randint(0, 8))
+            cache_case(ctx, d, {'kind': 'cache_order', 'ref': ref,
+                                'query': query, 'lookup': lookup,
+                                'shuffled': shuffled, 'items': items})
+
+
+def cache_case(ctx, d, detail):
+    import h5py
+    from cell_type_mapper.type_assignment.marker_cache_v2 import (
+        write_query_markers_to_h5)
+    from cell_type_mapper.utils.utils import clean_for_json
+    ref, query = detail['ref'], detail['query']
+    lookup, shuffled = detail['lookup'], detail['shuffled']
+    items = detail.get('items', [])
+    parents = list(lookup.keys())
+    detail = dict(detail)
+    outs = []
+    for i, lk in enumerate((lookup, shuffled)):
+        path = pathlib.Path(d) / ('cache_%d.h5' % i)
+        if path.exists():
+            path.unlink()
+        with pipeline.quiet():
+            write_query_markers_to_h5(
+                marker_lookup=lk, reference_gene_names=ref,
+                query_gene_names=query, output_cache_path=path)
+        got = {}
+        with h5py.File(path, 'r') as src:
+            got['all_query_markers'] = src['all_query_markers'][()].tolist()
+            got['all_reference_markers'] = \
+                src['all_reference_markers'][()].tolist()
+            got['parent_node_list'] = json.loads(
+                src['parent_node_list'][()].decode('utf-8'))
+            for p in parents:
+                got[p] = [src[p]['reference'][()].tolist(),
+                          src[p]['query'][()].tolist()]
+        outs.append(got)
+    ctx.case(('cache', json.dumps(lookup, sort_keys=True)), sample=None)
+    ctx.count('marker-cache-order')
+    # independent statement
+    want = {}
+    used = set(g for p in parents for g in lookup[p])
+    want['all_reference_markers'] = sorted(ref.index(g) for g in used)
+    want['all_query_markers'] = sorted(query.index(g) for g in used)
+    want['parent_node_list'] = sorted(parents)
+    for p in parents:
+        gs = sorted(lookup[p], key=ref.index)
+        want[p] = [[ref.index(g) for g in gs], [query.index(g) for g in gs]]
+    if outs[0] != want or outs[1] != want:
+        bad = 0 if outs[0] != want else 1
+        detail['got'] = outs[bad]
+        detail['want'] = want
+        ctx.violation('C04/enum/marker-cache-depends-on-list-order',
+                      'write_query_markers_to_h5: cache differs from the '
+                      'index-sorted one in %s'
+                      % diff_keys(want, outs[bad])[:5], detail)
+        return
+    # sets through clean_for_json
+    cj = clean_for_json({'s': set(items),
+                         't': set('g%d' % i for i in items)})
+    if cj != {'s': sorted(items), 't': sorted('g%d' % i for i in items)}:
+        detail['clean_for_json'] = cj
+        ctx.violation('C04/enum/clean_for_json-unsorted',
+                      'clean_for_json does not sort a set: %r' % (cj,),
+                      detail)
+        return
+    if ctx.driver_ok:
+        for p in parents:
+            keys = [ref.index(g) for g in lookup[p]]
+            m = ctx.model('procs.sortKeys', {'keys': keys})
+            if m != outs[0][p][0]:
+                ctx.disagreements_checked += 1
+                detail['model'] = m
+                detail['broken'] = 'correspondence CTM.Procs.sortKeys ~ ' \
+                                   'write_query_markers_to_h5'
+                ctx.violation('C04/correspondence/sortKeys',
+                              'correspondence procs.sortKeys no longer '
+                              'checks', detail, found_input=False)
+                break
+
+
 def hash_seed_runs(ctx, prob_seed, n_leaves, n_proc, base, seeds):
     # the selection gets its query gene names as a set (what the CLI passes
     # when there is no query file): set iteration order is what the hash seed
@@ -394,6 +498,7 @@ def run(ctx):
         replay(ctx, json.loads(f.read_text()), from_corpus=True)
     rng = ctx.rng
     check_reorder(ctx, rng, 300 if ctx.tier == 'quick' else 2000)
+    check_marker_cache_order(ctx, rng, 40 if ctx.tier == 'quick' else 300)
     if ctx.tier == 'quick':
         run_problem(ctx, rng.randrange(2 ** 31), rng.choice([6, 7]), 3,
                     n_orders=3, hash_seeds=['0', 'random'])
@@ -439,6 +544,9 @@ def replay(ctx, data, from_corpus=False):
                 if canon_of(st, d['fixture']) != base:
                     ctx.violation('C04/rerun/%s/output-differs'
                                   % d['fixture'], 'replayed', d)
+    elif kind == 'cache_order':
+        with pipeline.workdir('ctmverif_c04_') as wd:
+            cache_case(ctx, wd, d)
     elif kind == 'nproc':
         prob = c14suite.make_problem(d['prob_seed'], d.get('n_leaves'))
         with pipeline.workdir('ctmverif_c04_') as wd:
